@@ -213,7 +213,9 @@ sendLoop:
 				rs.log.Print(err)
 				continue sendLoop
 			}
-			if len(b) > rs.sendLimit {
+			// The frame header has 24 bits for the length, so a message of
+			// 2^24 bytes cannot be framed even if the peer accepts that much.
+			if len(b) > rs.sendLimit || len(b) >= 1<<24 {
 				rs.log.Println("Message size", len(b), "exceeds limit of",
 					rs.sendLimit)
 				continue sendLoop
